@@ -1291,6 +1291,7 @@ def partial_reduce(
     split_every=None,
     dtype=None,
     combine_sizes=None,
+    last_combine_sizes=None,
 ):
     """Apply a reduction function to multiple blocks across multiple axes.
 
@@ -1323,6 +1324,11 @@ def partial_reduce(
         else c
         for (i, c) in enumerate(x.chunks)
     )
+    if last_combine_sizes is not None:
+        chunks = tuple(
+            c[:-1] + (last_combine_sizes[i],) if i in last_combine_sizes else c
+            for (i, c) in enumerate(chunks)
+        )
     shape = tuple(map(sum, chunks))
 
     def back_key_function(out_key: ChunkKey) -> FunctionArgs[Iterator[ChunkKey]]:
@@ -1672,6 +1678,10 @@ def scan(
         split_every={axis: split_size},
         dtype=dtype,
         combine_sizes={axis: split_size},
+        # the last block may combine fewer chunks
+        last_combine_sizes={
+            axis: array.numblocks[axis] - split_size * ((array.numblocks[axis] - 1) // split_size)
+        },
     )
 
     # 3. Now scan `reduced` to generate the increments for each block of `scanned`.
